@@ -304,6 +304,12 @@ def run_case(ctx, sa, backends, spec, plan, rng, label):
                 break
 
     exp_tabs = {t.name for t in tables}
+    if ctx.quick and len(backends) > 3:
+        # quick tier: SQLite + two of the four ALTER-capable dialects per case, rotating
+        # (their DDL sequencing code is shared; every dialect still sees every 2nd case)
+        rot = ctx.evaluations // 3
+        fakes = backends[1:]
+        backends = [backends[0], fakes[rot % len(fakes)], fakes[(rot + 1 + (rot // len(fakes)) % (len(fakes) - 1)) % len(fakes)]]
     for be in backends:
         md, tables, exp_fks, exp_idx = build(sa, spec)
         be.reset()
